@@ -1,0 +1,66 @@
+//go:build verif
+
+// Contracts for package random, read only by /verif/bin/vcheck (comment-only file: no effect on any build).
+package random
+
+// A PRG object is well formed when its source is set and lives in another object than the
+// generic part (true for every object built by NewChacha20PRG / RestoreChacha20PRG).
+//@ pred prgInv(p) = p != nil && p.randCore != nil && obj(p.randCore) != obj(p)
+
+//@ func (randCore).Read
+//@ assigns arg0[:], obj(self)
+
+//@ func (*genericPRG).UintN mode bv props C15 C09
+//@ requires prgInv(p)
+//@ panics-iff n == 0
+//@ assigns p.uintnBuffer[:], obj(p.randCore)
+//@ ensures [range] result < n
+//@ ensures unchanged(p.randCore)
+//@ loop 1 invariant [size-range] 0 <= size && size <= 8
+//@ loop 1 invariant [size-shift] tmp == (max >> uint64(8*size))
+//@ loop 2 invariant [size-done] 0 <= size && size <= 8 && (max >> uint64(8*size)) == 0
+//@ loop 2 invariant [mask-allones] mask & (mask+1) == 0
+//@ loop 2 invariant [mask-tight] mask == 0 || (mask >> 1) < max
+//@ loop 3 invariant [size-done] 0 <= size && size <= 8
+//@ loop 3 invariant [mask-covers] max <= mask && (mask >> uint64(8*size)) == 0
+//@ loop 3 invariant [masked-fresh-bytes] random == n || random == (le64z(p.uintnBuffer[:], size) & mask)
+//@ loop 3 invariant prgInv(p) && unchanged(p.randCore)
+//@ loop 3 guard [reject-only-above-max] random > max
+//@ loop 3 exit  [accept-all-up-to-max] random <= max
+
+//@ pred isPerm(s, n) = forall(k, 0, n, 0 <= s[k] && s[k] < n) && forall(a, 0, n, forall(b, 0, n, a != b ==> s[a] != s[b]))
+
+//@ func (*genericPRG).Permutation mode int props C15 C09
+//@ requires prgInv(p)
+//@ assigns p.uintnBuffer[:], obj(p.randCore)
+//@ ensures [neg] n < 0 ==> result1 != nil
+//@ ensures [perm] n >= 0 ==> result1 == nil && len(result0) == n && isPerm(result0, n) && fresh(result0)
+//@ ensures unchanged(p.randCore)
+//@ loop 1 invariant [range] 0 <= i && i < n
+//@ loop 1 invariant [prefix-perm] isPerm(items, i)
+//@ loop 1 invariant prgInv(p) && unchanged(p.randCore)
+
+//@ func (*genericPRG).SubPermutation mode int props C15 C09
+//@ requires prgInv(p)
+//@ assigns p.uintnBuffer[:], obj(p.randCore)
+//@ ensures [errors] (m < 0 || n < m) ==> result1 != nil
+//@ ensures [sub] 0 <= m && m <= n ==> result1 == nil && len(result0) == m && forall(k, 0, m, 0 <= result0[k] && result0[k] < n) && forall(a, 0, m, forall(b, 0, m, a != b ==> result0[a] != result0[b]))
+
+//@ func (*genericPRG).Samples#swap
+//@ requires [swap-range] 0 <= arg0 && arg0 <= arg1 && arg1 < n
+//@ assigns everything
+//@ ensures unchanged(p.randCore) && p.randCore != nil && obj(p.randCore) != obj(p)
+
+//@ func (*genericPRG).Samples mode int props C15 C09
+//@ requires prgInv(p) && swap != nil
+//@ assigns everything
+//@ ensures [errors] (m < 0 || n < m) ==> result != nil
+//@ ensures [ok] 0 <= m && m <= n ==> result == nil
+//@ loop 1 invariant 0 <= i && i < m && m <= n
+//@ loop 1 invariant prgInv(p)
+
+//@ func (*genericPRG).Shuffle mode int props C15 C09
+//@ requires prgInv(p) && swap != nil
+//@ assigns everything
+//@ ensures [errors] n < 0 ==> result != nil
+//@ ensures [ok] n >= 0 ==> result == nil
